@@ -52,6 +52,9 @@ CHECKS = {
  "C18": dict(engine="I", tech="exhaustive fault enumeration: every step list up to a length x every begin/commit/rollback fault pattern, executed on the real Transact over a recording in-process database/sql driver", ref="DESIGN.md §3 C18",
    text="Every step list of length 0..3 quick / 0..5 thorough over {ok, ok+Exec, returns error, Exec fails, panics(string), panics(error), panics(nil)} x begin ok/fails x commit ok/fails x rollback ok/fails x {plain, Combine(all), Combine(tail), nested Combine} through gormx.Transact on gorm's MySQL dialector over a recording in-process driver: exactly one of commit/rollback, commit iff all steps succeeded, no step after the first failure, result identity, no escaping panic, nothing begun with no steps.",
    note="a failing driver callback has no effect; panic(nil) has the go 1.21 semantics of the harness module"),
+ "C19": dict(engine="H+I", tech=H+"; "+I, ref="DESIGN.md §3 C19",
+   text="For each of 128 configurations (code length x attempt limit x send limit x lifetime valid/expired x interval never/always x window never/always refreshed x mock on/off, clock frozen) every sequence up to depth 5 quick / 6 thorough of Send and Verify(right|wrong code x right|wrong hash, other pair's credentials) over two (area, phone) pairs on the real logic with a capturing SMS sender, against a per-pair reference of (code, hash, attempts, sends); pairs whose plain concatenations collide; the nonce generator driven with every index answer its source can give.",
+   note="time.Now in vlogic.go redirected to a frozen virtual clock by the overlay; boundary send (MaxCount+1) may be accepted or refused"),
 }
 NA = {}
 
